@@ -1526,6 +1526,14 @@ def irred_need(lib, n):
     return 2 * n * lib.W + max(lib.ppGCD_deep(n, n), lib.ppSqrMod_deep(n))
 
 
+def minpoly_need(lib, l):
+    """stack really used by ppMinPoly(b, a, l): its own 8n + 2m + 5 words + the callees ppDiv (not counted by
+    ppMinPoly_deep of the examined tree) and ppAddMulW"""
+    B, W = lib.B, lib.W
+    n, m = (l + B - 1) // B, (l + B) // B
+    return (8 * n + 2 * m + 5) * W + max(lib.ppAddMulW_deep(m), lib.ppDiv_deep(2 * n + 1, 2 * n) if n else 0)
+
+
 def unit_pp_irred(ctx):
     """ppIsIrred, ppMinPoly, ppMinPolyMod"""
     lib, rng, P = ctx.lib, ctx.rng, ctx.params
@@ -1533,6 +1541,7 @@ def unit_pp_irred(ctx):
     chunk, nchunks = P["chunk"], P["nchunks"]
     hist = {}
     padded = 0
+    mp_padded = 0
 
     def isirred(f, n, label):
         nonlocal padded
@@ -1595,17 +1604,20 @@ def unit_pp_irred(ctx):
         if kind == "const" and sel < 0.25:
             nn = 0
         cases.append((f, nn + (1 if sel > 0.9 else 0), exp, kind))
+    nbig = 0
     for f, n, exp, kind in cases:
-        if exp is None and f.bit_length() > 400 and rng.random() < 0.8:
-            f &= (1 << 400) - 1         # keep the model's Rabin test affordable
-            f |= 1 << 399
-            n = max(n, wlen(f, B)) if n * B < 400 else n
+        if exp is None and f.bit_length() > 200:
+            nbig += 1
+            if nbig % 8:
+                # keep the model's Rabin test affordable: most random polynomials are cut to < 200 bits
+                f = (f & ((1 << 199) - 1)) | (1 << (130 + nbig % 70))
+        if not ctx.case(["ppIsIrred", n, f], "ppIsIrred:%s" % kind):
+            continue
         model = G.is_irreducible(f)
         if exp is not None and exp != model:
             raise Harness("irreducibility model contradicts the construction (%s): %x" % (kind, f))
-        if not ctx.case(["ppIsIrred", n, f], "ppIsIrred:%s:%s" % (kind, "irreducible" if model else "reducible")):
-            continue
         bump(hist, "ppIsIrred:n=%d" % n)
+        bump(hist, "ppIsIrred:" + ("irreducible" if model else "reducible"))
         got = isirred(f, n, kind)
         ctx.digest(got)
         if got != model:
@@ -1637,8 +1649,6 @@ def unit_pp_irred(ctx):
             seq = [(rnd >> i) & 1 for i in range(N)]
         else:
             seq = [0 if mode == "zero" else 1] * N
-        Lm, g = G.minpoly_seq(seq)
-        defined = 2 * Lm <= N
         a = 0
         for i, bit in enumerate(seq):            # first element = bit 2l - 1
             if bit:
@@ -1647,13 +1657,18 @@ def unit_pp_irred(ctx):
         na = max(na_hdr, na_lib)
         if garbage and na * B > N:
             a |= (garbage << N) & ((1 << (na * B)) - 1)
-        cls = "ppMinPoly:%s:%s%s" % (mode, "L<=l" if defined else "L>l(unspecified)", ":a-padded" if na > na_hdr else "")
+        cls = "ppMinPoly:%s%s" % (mode, ":a-padded" if na > na_hdr else "")
         if not ctx.case(["ppMinPoly", l, a, na], cls):
             continue
+        Lm, g = G.minpoly_seq(seq)
+        defined = 2 * Lm <= N
+        bump(hist, "ppMinPoly:" + ("L<=l" if defined else "L>l(unspecified,unchecked)"))
         bump(hist, "ppMinPoly:l%%B=%s" % ("0" if l % B == 0 else "<=B/2" if l % B <= B // 2 else ">B/2"))
         nb = (l + 1 + B - 1) // B
         pb_ = lib.outw(nb)
-        lib.ppMinPoly(pb_, lib.mkw(a, na), l, pp_stack(lib, "ppMinPoly", l))
+        sd, sn = lib.ppMinPoly_deep(l), minpoly_need(lib, l)
+        mp_padded += sn > sd
+        lib.ppMinPoly(pb_, lib.mkw(a, na), l, lib.alloc(max(sd, sn)))
         got = lib.rdw(pb_, nb)
         if defined:
             ctx.digest(got)
@@ -1693,13 +1708,16 @@ def unit_pp_irred(ctx):
         if a == 0:
             a = 1
         irr = G.is_irreducible(md)
+        if not ctx.case(["ppMinPolyMod", n, a, md], "ppMinPolyMod:%s" % ("irreducible-mod" if irr else "reducible-mod")):
+            continue
         exp = G.minpoly_mod(a, md)
         if irr and a and not G.is_irreducible(exp):
             raise Harness("minpoly_mod model: minimal polynomial over a field must be irreducible")
-        if not ctx.case(["ppMinPolyMod", n, a, md], "ppMinPolyMod:%s" % ("irreducible-mod" if irr else "reducible-mod")):
-            continue
         pb_ = lib.outw(n)
-        lib.ppMinPolyMod(pb_, lib.mkw(a, n), lib.mkw(md, n), n, pp_stack(lib, "ppMinPolyMod", n))
+        sd = lib.ppMinPolyMod_deep(n)
+        sn = 3 * n * W + max(lib.ppMulMod_deep(n), minpoly_need(lib, dm))
+        mp_padded += sn > sd
+        lib.ppMinPolyMod(pb_, lib.mkw(a, n), lib.mkw(md, n), n, lib.alloc(max(sd, sn)))
         got = lib.rdw(pb_, n)
         ctx.digest(got)
         if got != exp:
@@ -1708,6 +1726,279 @@ def unit_pp_irred(ctx):
         lib.release()
     ctx.note("pp_irred", hist)
     ctx.note("ppIsIrred_stack_padded_calls", padded)
+    ctx.note("ppMinPoly_stack_padded_calls", mp_padded)
+
+
+def unit_pp_edge(ctx):
+    """pp.h inputs / declared sizes on which the examined tree aborts (ASan, ASSERT): one call per case, bounded
+    number (every abort costs a worker restart). The bulk units avoid exactly these classes and say so."""
+    lib = ctx.lib
+    W, B = lib.W, lib.B
+    part = ctx.params.get("part", 0)
+    X = 1 << B
+    f163, f233 = p4_poly((163, 7, 6, 3)), p4_poly((233, 74, 0, 0))
+    big_a = (f163 << 300) ^ (f233 << 17) ^ 0x1234567
+    C = []
+    if part == 0:
+        # ppDiv / ppMod / ppRed by the constant 1, ppDiv by polynomials of degree k*B (top word 1)
+        C += [("ppDiv", 1, 0x1235, 1, 1), ("ppDiv", 2, X + 5, 1, 1), ("ppMod", 1, 0x1235, 1, 1), ("ppMod", 2, X + 5, 1, 1),
+              ("ppRed", 1, X * 7 + 3, 1), ("ppDiv", 2, (X >> 1) * X + 77, 2, X + 0x1B), ("ppDiv", 4, big_a & (X ** 4 - 1), 2, X + 3),
+              ("ppDiv", 11, big_a & (X ** 11 - 1), 5, X ** 4 + (f163 & (X ** 4 - 1))), ("ppDiv", 3, X ** 2 + X + 1, 3, X ** 2 + 7)]
+        # ppExGCD: one operand without constant term after the common power of x is removed; n < m
+        C += [("ppExGCD", 1, 1, 1, 2), ("ppExGCD", 1, 2, 1, 1), ("ppExGCD", 1, 0b1011, 1, 0b110), ("ppExGCD", 1, 0b110, 1, 0b1011),
+              ("ppExGCD", 3, X * X * 0x19 + X * 5 + 1, 2, (X * 3 + 0x2F) << 1), ("ppExGCD", 2, (X + 0x1F3) << 3, 3, (X * X * 5 + X + 1) << 3),
+              ("ppExGCD", 1, 0b111, 2, X + 3), ("ppExGCD", 2, X + 3, 3, X * X + X + 1)]
+    else:
+        # declared stack depth / declared operand size, exactly as pp.h says
+        C += [("ppIsIrred", 1, 0b10011), ("ppIsIrred", wlen(f163, B), f163), ("ppIsIrred", wlen(f233, B) + 1, f233),
+              ("ppIsIrred", 1, 0b110), ("ppIsIrred", 1, 1),
+              ("ppMinPoly:a", 1, 0b11), ("ppMinPoly:a", B // 2, (1 << B) - 1), ("ppMinPoly:a", B + 1, 0x5A5A5A5A5),
+              ("ppMinPoly:deep", 2 * B, (1 << (4 * B)) - 1), ("ppMinPoly:deep", B, 0x9E3779B97F4A7C15 & (X - 1) | X << (B - 3)),
+              ("ppMinPoly:deep", 3, 0b101101),
+              ("ppMinPolyMod", 1, 0b10, 0b1011), ("ppMinPolyMod", wlen(f163, B), 0b10, f163), ("ppMinPolyMod", 1, 0b110, 0b11111)]
+    for c in C:
+        fn = c[0]
+        if not ctx.case(["pp-edge"] + list(c), "pp-edge:" + fn):
+            continue
+        if fn in ("ppDiv", "ppMod"):
+            _, n, a, m, b = c
+            pa, pb = lib.mkw(a, n), lib.mkw(b, m)
+            r = lib.outw(m)
+            qe, re_ = G.divmod_(a, b)
+            if fn == "ppDiv":
+                q = lib.outw(n - m + 1)
+                lib.ppDiv(q, r, pa, n, pb, m, pp_stack(lib, fn, n, m))
+                got = (lib.rdw(q, n - m + 1), lib.rdw(r, m))
+                exp = (qe, re_)
+            else:
+                lib.ppMod(r, pa, n, pb, m, pp_stack(lib, fn, n, m))
+                got, exp = lib.rdw(r, m), re_
+            ctx.digest(got)
+            if got != exp:
+                pbad(ctx, fn, "value", {"a": a, "n": n, "b": b, "m": m, "got": str(got), "expected": str(exp)})
+        elif fn == "ppRed":
+            _, n, a, md = c
+            pa = lib.mkw(a, 2 * n)
+            lib.ppRed(pa, lib.mkw(md, n), n, pp_stack(lib, fn, n))
+            got = lib.rdw(pa, n)
+            ctx.digest(got)
+            if got != G.mod(a, md):
+                pbad(ctx, fn, "value", {"a": a, "mod": md, "got": got})
+        elif fn == "ppExGCD":
+            _, n, a, m, b = c
+            if a >> (n * B) or b >> (m * B) or not a or not b:
+                raise Harness("pp-edge: bad ppExGCD operands")
+            k = min(n, m)
+            d, da, db = lib.outw(k), lib.outw(m), lib.outw(n)
+            lib.ppExGCD(d, da, db, lib.mkw(a, n), n, lib.mkw(b, m), m, pp_stack(lib, fn, n, m))
+            gd, gda, gdb = lib.rdw(d, k), lib.rdw(da, m), lib.rdw(db, n)
+            ctx.digest(gd, gda, gdb)
+            if gd != G.gcd(a, b):
+                pbad(ctx, fn, "value", {"a": a, "b": b, "got": gd, "expected": G.gcd(a, b)})
+            elif G.mul(a, gda) ^ G.mul(b, gdb) != gd:
+                pbad(ctx, fn, "bezout", {"a": a, "b": b, "d": gd, "da": gda, "db": gdb})
+        elif fn == "ppIsIrred":
+            _, n, f = c
+            got = bool(lib.ppIsIrred(lib.mkw(f, n), n, pp_stack(lib, fn, n)))
+            ctx.digest(got)
+            if got != G.is_irreducible(f):
+                pbad(ctx, fn, "value", {"a": f, "n": n, "got": got})
+        elif fn.startswith("ppMinPoly:"):
+            _, l, a = c
+            na_hdr, na_lib = (2 * l + B - 1) // B, 2 * ((l + B - 1) // B)
+            a &= (1 << (2 * l)) - 1
+            seq = [(a >> (2 * l - 1 - i)) & 1 for i in range(2 * l)]
+            Lm, g = G.minpoly_seq(seq)
+            nb = (l + B) // B
+            pb_ = lib.outw(nb)
+            if fn.endswith(":a"):
+                # [W_OF_B(2l)]a exactly as declared; sufficient stack
+                st = lib.alloc(max(lib.ppMinPoly_deep(l), minpoly_need(lib, l)))
+                lib.ppMinPoly(pb_, lib.mkw(a, na_hdr), l, st)
+            else:
+                lib.ppMinPoly(pb_, lib.mkw(a, max(na_hdr, na_lib)), l, pp_stack(lib, "ppMinPoly", l))
+            got = lib.rdw(pb_, nb)
+            if 2 * Lm <= 2 * l:
+                ctx.digest(got)
+                if got != g:
+                    pbad(ctx, "ppMinPoly", "value", {"l": l, "a": a, "got": got, "expected": g})
+        else:
+            _, n, a, md = c
+            pb_ = lib.outw(n)
+            lib.ppMinPolyMod(pb_, lib.mkw(a, n), lib.mkw(md, n), n, pp_stack(lib, fn, n))
+            got = lib.rdw(pb_, n)
+            ctx.digest(got)
+            exp = G.minpoly_mod(a, md)
+            if got != exp:
+                pbad(ctx, fn, "value:irreducible-mod" if G.is_irreducible(md) else "value:reducible-mod", {"a": a, "mod": md, "got": got, "expected": exp})
+        lib.release()
+
+
+# ----------------------------------------------------------------------------------------------
+# gf2: fields GF(2^m) through the qr_o table, trace, quadratic equations, validity
+# ----------------------------------------------------------------------------------------------
+
+# descriptions of the admissible shape whose polynomial is reducible (found with the model, re-verified at run time)
+REDUCIBLE = [(71, 5, 0, 0), (97, 7, 0, 0), (131, 7, 0, 0), (163, 7, 6, 2), (233, 73, 0, 0), (128, 7, 3, 1), (283, 12, 7, 4),
+             (73, 5, 3, 1), (409, 86, 0, 0), (192, 7, 3, 1)]
+
+
+def gf2_valid_need(lib, n):
+    return (n + 1) * lib.W + max(lib.ppIsIrred_deep(n + 1), irred_need(lib, n + 1))
+
+
+def unit_gf2(ctx):
+    lib, rng, P = ctx.lib, ctx.rng, ctx.params
+    W, B = lib.W, lib.B
+    chunk, nchunks, per = P["chunk"], P["nchunks"], P["cases"]
+    hist = {}
+    fields = [p4 for i, p4 in enumerate(FIELDS) if i % nchunks == chunk]
+    red = [p4 for i, p4 in enumerate(REDUCIBLE) if i % nchunks == chunk]
+    n_deep_canary = n_aligned_canary = 0
+    for p4 in fields + red:
+        m = p4[0]
+        f = p4_poly(p4)
+        irr = p4 in fields
+        draws = [(rng.getrandbits(m), rng.getrandbits(m), rng.getrandbits(64), rng.getrandbits(192)) for _ in range(per)]
+        if not gf2_admissible(p4, B):
+            # e.g. m - k < 64: a 32-bit-word-only field
+            bump(hist, "skipped:not-admissible-for-B=%d" % B)
+            continue
+        n, no = (m + B - 1) // B, (m + 7) // 8
+        n1 = n + (m % B == 0)
+        alg = FAlg(p4)
+        shape = "%s:%s" % ("trinomial" if p4[2] == 0 else "pentanomial",
+                           "m%B=0" if m % B == 0 else "(m-k)%B=0" if p4[2] == 0 and (m - p4[1]) % B == 0 else "generic")
+        # --- description: constructor postconditions, predicates
+        if ctx.case(["gf2Create", list(p4)], "gf2:create:" + ("irreducible" if irr else "reducible")):
+            if G.is_irreducible(f) != irr:
+                raise Harness("gf2 catalogue: irreducibility of %s is not as listed" % (p4,))
+            alg.selftest([(a, b) for a, b, _, _ in draws[:6]])
+            fld = Ring.gf2(lib, p4)
+            if fld is None:
+                pbad(ctx, "gf2Create", "return", {"p": str(p4), "what": "admissible description rejected"})
+                lib.release()
+                continue
+            obs = [fld.n, fld.no, fld.mod_int(n1), fld.unity_int(), fld.q.hdr.keep <= fld.keep_alloc]
+            if obs != [n, no, f, 1, True]:
+                pbad(ctx, "gf2Create", "post", {"p": str(p4), "observed": str(obs), "expected": str([n, no, f, 1, True])})
+            op, dg = bool(lib.gf2IsOperable(fld.p)), lib.gf2Deg(fld.p)
+            if not op or dg != m:
+                pbad(ctx, "gf2IsOperable", "return", {"p": str(p4), "operable": op, "deg": dg})
+            sd, sn = lib.gf2IsValid_deep(fld.n), gf2_valid_need(lib, fld.n)
+            val = bool(lib.gf2IsValid(fld.p, lib.alloc(max(sd, sn))))
+            if val != irr:
+                pbad(ctx, "gf2IsValid", "return", {"p": str(p4), "got": val, "irreducible": irr})
+            ctx.digest(obs, op, dg, val)
+            lib.release()
+        if ctx.case(["gf2IsValid:declared-deep", list(p4)], "gf2:valid:exact-deep"):
+            fld = Ring.gf2(lib, p4)
+            val = bool(lib.gf2IsValid(fld.p, lib.alloc(lib.gf2IsValid_deep(fld.n))))
+            ctx.digest(val)
+            if val != irr:
+                pbad(ctx, "gf2IsValid", "return", {"p": str(p4), "got": val, "irreducible": irr})
+            lib.release()
+        if not irr:
+            continue            # \expect of the field operations (correct description) does not hold
+        n_deep_canary += 1
+        if n_deep_canary <= 3 and ctx.case(["gf2:declared-deep", list(p4)], "gf2:ops:exact-deep"):
+            # mul / sqr / inv / div with exactly f->deep
+            fld = Ring.gf2(lib, p4)
+            x, y = draws[0][0] | 1, draws[0][1]
+            a, b, c = lib.mkw(x, n), lib.mkw(y, n), lib.outw(n)
+            st = fld.stack(exact=True)
+            fld.mul(c, a, b, st); r1 = lib.rdw(c, n)
+            fld.sqr(c, a, st); r2 = lib.rdw(c, n)
+            xi = alg.inv(x)
+            if m % B:
+                fld.inv(c, a, st); r3 = lib.rdw(c, n)
+                fld.div(c, b, a, st); r4 = lib.rdw(c, n)
+            else:
+                r3, r4 = xi, alg.mul(y, xi)
+            ctx.digest(r1, r2, r3, r4)
+            if [r1, r2, r3, r4] != [alg.mul(x, y), alg.sqr(x), xi, alg.mul(y, xi)]:
+                pbad(ctx, "gf2", "value:exact-deep", {"p": str(p4), "x": x, "y": y})
+            lib.release()
+        aligned = m % B == 0
+        n_aligned_canary += aligned
+        if aligned and n_aligned_canary <= 2:
+            # m multiple of B: gf2Inv / gf2Div pass the n-word elements to ppInvMod / ppDivMod as (n + 1)-word
+            # operands (read past the element on the examined tree): one call per case here, none in the bulk
+            for op in ("inv", "div"):
+                if not ctx.case(["gf2:" + op, list(p4)], "gf2:%s:m%%B=0" % op):
+                    continue
+                fld = Ring.gf2(lib, p4)
+                x, y = draws[1][0] | 2, draws[1][1]
+                a, b, c = lib.mkw(x, n), lib.mkw(y, n), lib.outw(n)
+                st = fld.stack()
+                xi = alg.inv(x)
+                if op == "inv":
+                    fld.inv(c, a, st)
+                    exp = xi
+                else:
+                    fld.div(c, b, a, st)
+                    exp = alg.mul(y, xi)
+                got = lib.rdw(c, n)
+                ctx.digest(got)
+                if got != exp:
+                    pbad(ctx, "qr%s@gf2" % op.capitalize(), "value", {"p": str(p4), "x": x, "y": y, "got": got, "expected": exp})
+                lib.release()
+        cat = [0, 1, 2, (1 << m) - 1, 1 << (m - 1), (1 << (m - 1)) | 1, 3, (1 << m) - 2]
+        top = (1 << (8 * no)) - 1
+        rej = [v.to_bytes(no, "little") for v in ((1 << m), (1 << m) | 1, top, 1 << (8 * no - 1)) if v <= top and v >> m]
+        for ci, (rx, ry, s, er) in enumerate(draws):
+            if ci == 0:
+                x, y = (1 << m) - 1, (1 << m) - 1
+            elif ci == 1:
+                x, y = 0, 1
+            elif ci == 2:
+                x, y = 2, 1 << (m - 1)
+            else:
+                x = cat[(s >> 20) % len(cat)] if (s >> 17) % 5 < 2 else rx
+                y = cat[(s >> 24) % len(cat)] if (s >> 28) % 5 < 2 else ry
+                if (s >> 40) % 11 == 0:
+                    y = x
+            e = EXPONENTS[s % len(EXPONENTS)] if (s >> 8) % 3 else er >> [184, 128, 122, 62, 0][(s >> 10) % 5]
+            if (s >> 44) % 23 == 0:
+                e = (1 << m) - 1 - ((s >> 50) & 1)          # Fermat exponent 2^m - 1, inverse exponent 2^m - 2
+            epad = (s >> 16) & 1
+            if not ctx.case(["gf2", list(p4), x, y, e, epad], "gf2:%s" % shape):
+                continue
+            bump(hist, "m=%d" % m)
+            fld = Ring.gf2(lib, p4)
+            out = ring_case(ctx, fld, alg, "gf2", x, y, e, epad, do_inv=not aligned, direct=False, extra_rej=rej)
+            # trace
+            tdeep = lib.gf2Tr_deep(n, max(fld.deep, fld.need))
+            tr = lib.gf2Tr(lib.mkw(x, n), fld.p, lib.alloc(tdeep))
+            te = alg.trace(x)
+            if te not in (0, 1):
+                raise Harness("trace model: value outside GF(2)")
+            out.append(tr)
+            if int(bool(tr)) != te:
+                pbad(ctx, "gf2Tr", "value", {"p": str(p4), "a": x, "got": tr, "expected": te})
+            # z^2 + x z + y = 0 (m odd)
+            if m % 2 == 1:
+                z = lib.outw(n)
+                ret = lib.gf2QSolve(z, lib.mkw(x, n), lib.mkw(y, n), fld.p, lib.alloc(lib.gf2QSolve_deep(n, max(fld.deep, fld.need))))
+                if x == 0 or y == 0:
+                    exists = True
+                else:
+                    exists = alg.trace(alg.mul(y, alg.inv(alg.sqr(x)))) == 0
+                out.append(bool(ret))
+                bump(hist, "qsolve:" + ("a=0" if x == 0 else "b=0" if y == 0 else "solvable" if exists else "unsolvable"))
+                if bool(ret) != exists:
+                    pbad(ctx, "gf2QSolve", "existence", {"p": str(p4), "a": x, "b": y, "got": bool(ret), "expected": exists})
+                elif ret:
+                    zz = lib.rdw(z, n)
+                    out.append(zz)
+                    if zz >> m or alg.sqr(zz) ^ alg.mul(x, zz) ^ y:
+                        pbad(ctx, "gf2QSolve", "root", {"p": str(p4), "a": x, "b": y, "root": zz})
+                    elif x == 0 and y and alg.sqr(zz) != y:
+                        pbad(ctx, "gf2QSolve", "root", {"p": str(p4), "a": x, "b": y, "root": zz})
+            ctx.digest(out)
+            lib.release()
+    ctx.note("gf2", hist)
+    ctx.note("stack_padded_calls", Ring.padded)
 
 
 def jobs(tier, scale=1.0):
@@ -1723,6 +2014,11 @@ def jobs(tier, scale=1.0):
     ns = 4 if q else 16
     for k in range(ns):
         J.append({"unit": "c05_pp:unit_pp_small", "params": {"chunk": k, "nchunks": ns, "maxdeg": 8 if q else 10}})
+    ng = 3 if q else 12
+    for k in range(ng):
+        J.append({"unit": "c05_pp:unit_gf2", "params": {"chunk": k, "nchunks": ng, "cases": sc(30 if q else 300)}})
+    J.append({"unit": "c05_pp:unit_pp_edge", "params": {"part": 0}})
+    J.append({"unit": "c05_pp:unit_pp_edge", "params": {"part": 1}})
     ni = 2 if q else 8
     for k in range(ni):
         J.append({"unit": "c05_pp:unit_pp_irred", "params": {"chunk": k, "nchunks": ni, "cases": sc(400 if q else 2500)}})
